@@ -1059,9 +1059,12 @@ class TermBuilder:
             else:
                 kws.append((k.arg, T(k.value)))
         t = canon_call(func, tuple(args), tuple(kws))
-        if t[0] != "call" or not self.inline:
+        if t[0] != "call":
             return t
         callee, recv = self.resolve_callee(t[1])
+        if not self.inline and not (callee is not None and _free_helper(callee)):
+            # a non-inlining builder still looks through small private helpers that no rule names (see vstat/inliner.py)
+            return t
         if callee is not None:
             r = self.inline_call(callee, recv, t[2], t[3])
             if r is not None:
@@ -1089,9 +1092,10 @@ class TermBuilder:
         if f[0] == "func":
             fi = self.prog.functions.get(f[1])
             return fi, None
-        if f[0] == "attr" and f[1] == SELF and self.self_cls is not None:
-            m = self.prog.lookup_method(self.self_cls, f[2])
-            if m is not None and not self.prog.is_property(self.self_cls, f[2]):
+        cls = self.self_cls or self.fn.cls
+        if f[0] == "attr" and f[1] == SELF and cls is not None:
+            m = self.prog.lookup_method(cls, f[2])
+            if m is not None and not self.prog.is_property(cls, f[2]) and (self.self_cls is not None or _free_helper(m)):
                 return m, (None if m.is_static else SELF)
         if f[0] == "global":
             d = f[1]
@@ -1167,7 +1171,9 @@ class TermBuilder:
                 t = ("tuple", tuple(phi(x[1][k] for x in ts) for k in range(len(ts[0][1]))))
             else:
                 t = phi(ts)
-        if contains(t, lambda s: s[0] in ("cyc",)):
+        # a cycle the callee itself introduces makes the result useless; cycles already inside the arguments are the caller's
+        given_cyc = {s_ for a_ in list(args) + [v_ for _k, v_ in kws] + ([recv] if recv is not None else []) for s_ in walk(a_) if s_[0] == "cyc"}
+        if any(s_[0] == "cyc" and s_ not in given_cyc for s_ in walk(t)):
             return None
         if recv is not None and recv != SELF:
             t = subst(t, {SELF: recv})
@@ -1218,6 +1224,13 @@ class TermBuilder:
                     if k == idx:
                         out.append(v)
         return phi(out)
+
+
+def _free_helper(fi):
+    """A private helper of the package that no rule names: looked through wherever it is called."""
+    from .inliner import anchor_names
+    n = fi.name
+    return n.startswith("_") and not n.startswith("__") and n not in anchor_names() and fi.parent is None and not isinstance(fi.node, ast.Lambda)
 
 
 def _own_walk(fnode):
